@@ -1,8 +1,9 @@
 CONFIG = {
         "props_file": "props/C02.v",
-        "layers": ["wrap"],
-        "drv_modules": ["DrvWrap"],
-        "gen_files": ["UnicodeSpace.v", "WrapFacts.v", "CellWidthTable.v"],
+        "layers": ["wrap", "t2"],
+        "ops": {"t2": ["t2.chop_cells", "t2.set_cell_size", "t2.cw_range"]},
+        "drv_modules": ["DrvWrap", "DrvT2Cells"],
+        "gen_files": ["UnicodeSpace.v", "WrapFacts.v", "CellWidthTable.v", "T2_Cells.v"],
         "exhaustive": [
             "all 1,114,112 code points: model is_space (generated range list) vs str.isspace, re \\s, re \\S, str.strip, str.rstrip, str.split, \\s+$",
         ],
